@@ -283,6 +283,8 @@ type script struct {
 	Bulk    bool // multi-MiB client stream: only its structure goes to Coq
 	RT, WT  time.Duration // tcp.Server ReadTimeout / WriteTimeout of the listener (tcp paths)
 	TLSUp   bool          // websocket: the upstream speaks TLS (target scheme https: the relay dials with tls.Dial)
+	WSEarly  bool         // websocket: the client's first segment travels in the same segment as the upgrade request
+	WSBefore int          // ... and this many more segments follow before it has seen the 101
 	Barrier int           // the client sends its last Barrier segments only after it has received the upstream's whole output
 	CliCW   bool // the client connection handed to the proxy has a CloseWrite method
 	Fin     int  // 0: EOF in a Read of its own; 1: the last bytes come with io.EOF; 9: with another error
@@ -441,6 +443,7 @@ type observation struct {
 	Conn     bool
 	ClEOF    bool // the proxy closed the write side of the client connection: the client saw EOF after the upstream's data
 	Ended    bool // the tunnel returned by itself, before the harness stopped the connection
+	Stalled  bool // the harness stopped the connection because nothing moved any more although not everything expected had arrived
 	UpClean  bool // the upstream's stream ended with a clean EOF
 	Up       []byte
 	Cl       []byte
@@ -484,11 +487,29 @@ func runOnce(s *script) observation {
 	defer u.ln.Close()
 	target := &route.Target{URL: &url.URL{Scheme: "tcp", Host: u.ln.Addr().String()}, ProxyProto: s.PP}
 	var steps []cstep
-	if s.Kind == kWS {
-		steps = append(steps, cstep{data: []byte(wsReq)}, cstep{wait: s.WSHead})
-	}
 	segs := splitSegs(s.Stream, s.Segs)
+	skip := 0
+	if s.Kind == kWS {
+		req := []byte(wsReq)
+		if s.WSEarly && len(segs) > 0 {
+			// the client does not wait for the 101: its first bytes share the request's segment ...
+			req = append(req, segs[0]...)
+			skip = 1
+		}
+		steps = append(steps, cstep{data: req})
+		// ... and more follow at once
+		for skip < len(segs) && skip < 1+s.WSBefore && s.WSEarly {
+			if len(segs[skip]) > 0 {
+				steps = append(steps, cstep{data: segs[skip]})
+			}
+			skip++
+		}
+		steps = append(steps, cstep{wait: s.WSHead})
+	}
 	for i, seg := range segs {
+		if i < skip {
+			continue
+		}
 		if s.Barrier > 0 && i == len(segs)-s.Barrier {
 			steps = append(steps, cstep{wait: len(s.Reply)})
 		}
@@ -609,11 +630,12 @@ func runOnce(s *script) observation {
 		idle := time.Since(last)
 		full := upN >= wantUp && clN >= wantCl
 		// nobody will finish: stop when everything expected has arrived and things are quiet, or nothing moves any more
-		if (full && idle > 150*time.Millisecond && s.CEnd == cStay) || idle > 1300*time.Millisecond || time.Since(start) > 15*time.Second {
+		if (full && idle > 150*time.Millisecond && s.CEnd == cStay) || idle > 4*time.Second || time.Since(start) > 15*time.Second {
 			if time.Since(start) > 15*time.Second {
 				obs.TimedOut = true
 			}
 			forced = true
+			obs.Stalled = !full
 			cli.Close()
 		}
 	}
@@ -669,9 +691,21 @@ func modified(s *script, o observation) bool {
 		len(o.Cl) > len(s.Reply) || !bytes.Equal(o.Cl, s.Reply[:len(o.Cl)])
 }
 
+// racy: scenarios in which the kernel or goroutine timing decides how much arrives (the model
+// gives an interval there); only those are replayed.  Everywhere else the first observation
+// stands: a loss is reported at once.
+func racy(s *script) bool {
+	total := len(specUp(s))
+	early := s.UTrig == uAtConnect || (s.UTrig == uAfterBytes && s.UN <= total)
+	allBefore := s.UTrig == uOnEOF || (s.UTrig == uAfterBytes && s.UN >= total) || (s.UTrig == uAtConnect && total == 0)
+	return s.Bulk || (s.UEnd == uClose && early && !allBefore) || (s.UEnd == uHalf && !s.CliCW && early && !allBefore)
+}
+
 func runCase(s *script) (observation, int) {
 	a := runOnce(s)
-	if complete(s, a) || modified(s, a) {
+	// (a connection the harness had to stop because nothing moved any more is looked at twice: on a
+	// loaded machine a scripted pause can outlast the idle limit)
+	if complete(s, a) || modified(s, a) || (!racy(s) && !a.Stalled) {
 		return a, 1
 	}
 	b := runOnce(s)
@@ -797,6 +831,8 @@ func payload(r *rand.Rand, n int) []byte {
 	}
 	return b
 }
+
+func payloadBytes(r *rand.Rand, n int) []byte { return payload(r, n) }
 
 func segmentation(r *rand.Rand, n int, style int) []int {
 	var segs []int
@@ -1136,7 +1172,7 @@ func main() {
 	add := func(s *script, class string) {
 		// reads that return bytes together with an error: the client's last Read returns its last
 		// bytes and io.EOF (or, for a closing client, another error) at once
-		if s.Kind != kWS && s.CEnd != cStay && !s.CWait && len(s.Stream) > 0 {
+		if s.CEnd != cStay && !s.CWait && len(s.Stream) > 0 {
 			switch r.Intn(5) {
 			case 0, 1:
 				s.Fin = 1
@@ -1149,26 +1185,17 @@ func main() {
 			}
 		}
 		s.CliCW = r.Intn(2) == 0
-		// an upstream that half-closes while client bytes are still on their way, behind a client
-		// connection that cannot be closed for writing only, ends the tunnel (closeWrite -> io.EOF)
-		// and cuts the client's stream at a point only timing decides: kept out of the generated
-		// domain (see Model/Tunnel.v region_upstream_half_close)
-		if s.UEnd == uHalf {
-			total := len(specUp(s))
-			allBefore := s.UTrig == uOnEOF || (s.UTrig == uAfterBytes && s.UN >= total) || (s.UTrig == uAtConnect && total == 0)
-			if !allBefore {
-				s.CliCW = true
-			}
-		}
 		// forced interleaving: the client sends its last segments only after it has received the
 		// upstream's whole output, i.e. after the upstream has half-closed
-		if s.UEnd == uHalf && s.CliCW && !s.CWait && len(s.Segs) >= 2 {
+		if s.UEnd == uHalf && !s.CWait && len(s.Segs) >= 2 {
 			b := 1 + r.Intn(min(3, len(s.Segs)-1))
 			tail := 0
 			for _, n := range s.Segs[len(s.Segs)-b:] {
 				tail += n
 			}
-			if s.UTrig == uAtConnect || (s.UTrig == uAfterBytes && s.UN <= len(specUp(s))-tail) {
+			// (on tcp+sni nothing reaches the upstream before the whole ClientHello has been sent)
+			if (s.Kind != kSNI || len(s.Stream)-tail >= s.HeadLen) &&
+				(s.UTrig == uAtConnect || (s.UTrig == uAfterBytes && s.UN <= len(specUp(s))-tail)) {
 				s.Barrier = b
 				class += "+client-sends-rest-after-upstream-eof"
 			}
@@ -1179,6 +1206,15 @@ func main() {
 			tc := [][2]time.Duration{{0, 50 * time.Millisecond}, {3 * time.Second, 50 * time.Millisecond}, {3 * time.Second, 0}}[r.Intn(3)]
 			s.RT, s.WT = tc[0], tc[1]
 			class += "+listener-timeouts"
+		}
+		if s.Kind == kWS && strings.HasPrefix(class, "ws-101") && s.Barrier == 0 && len(s.Segs) > 0 && r.Intn(3) == 0 {
+			total := len(specUp(s))
+			allBefore := s.UTrig == uOnEOF || (s.UTrig == uAfterBytes && s.UN >= total) || (s.UTrig == uAtConnect && total == 0)
+			if s.UEnd != uClose || allBefore {
+				s.WSEarly = true
+				s.WSBefore = r.Intn(3)
+				class += "+bytes-with-upgrade-request"
+			}
 		}
 		if s.Kind == kWS && r.Intn(3) == 0 {
 			s.TLSUp = true
@@ -1270,6 +1306,8 @@ func main() {
 		switch {
 		case i%10 == 3:
 			hello = paddedHello(r, hosts[r.Intn(len(hosts))], []int{4090, 4096, 4097, 5000, 9000}[r.Intn(5)])
+		case i%17 == 5: // a hello without the server_name extension: nothing to route on
+			hello = realHello(r, "")
 		default:
 			hello = realHello(r, hosts[r.Intn(len(hosts))])
 		}
@@ -1279,6 +1317,7 @@ func main() {
 		}
 		extra := s.Stream
 		s.Stream = append(append([]byte(nil), hello...), extra...)
+		s.HeadLen = len(hello)
 		s.Lit = len(hello) + len(extra)
 		if len(extra) > 1500 {
 			s.Lit = len(hello)
@@ -1314,7 +1353,16 @@ func main() {
 			class = "sni-random-segmentation"
 		}
 		// keep a symbolic tail either empty or long (see describe)
-		name := g.ending(s, []int{1, 0, 2, 3, 4, 1, 3, 7, 8, 2}[r.Intn(10)])
+		name := g.ending(s, []int{1, 0, 2, 3, 4, 1, 3, 7, 8, 2, 5, 6}[r.Intn(12)])
+		if i%12 == 11 { // both directions busy at the same time
+			m := 60000 + r.Intn(30000)
+			s.Reply, s.RLit = payload(r, m), 0
+			name = g.ending(s, 0) + "-duplex-both-directions-busy"
+			s.UTrig = uAtConnect
+		}
+		if i%17 == 5 && i%10 != 3 {
+			class = "sni-hello-without-server-name"
+		}
 		if i%23 == 7 { // not a routable hello: nothing is tunnelled
 			s.Stream[5] = 2
 			class = "sni-not-a-hello"
@@ -1363,7 +1411,15 @@ func main() {
 			s.RSeg1 = 13 + r.Intn(len(head)-13)
 			class += "-split-head"
 		}
-		name := g.ending(s, []int{0, 3, 4, 0, 2, 7, 8, 2}[r.Intn(8)])
+		name := g.ending(s, []int{0, 3, 4, 0, 2, 7, 8, 2, 1, 5, 6}[r.Intn(11)])
+		if i%12 == 11 && strings.HasPrefix(class, "ws-101") { // both directions busy at the same time
+			n, m := 60000+r.Intn(30000), 60000+r.Intn(30000)
+			s.Stream, s.Lit = payloadBytes(r, n), 0
+			s.Segs = segmentation(r, n, 3)
+			s.Reply = append([]byte(head), payloadBytes(r, m)...)
+			s.RLit = len(head)
+			name = g.ending(s, 0) + "-duplex-both-directions-busy"
+		}
 		if r.Intn(2) == 0 && s.UTrig == uAfterBytes {
 			s.UTrig = uAtConnect // head and payload leave together
 		}
@@ -1472,7 +1528,7 @@ func main() {
 			replays++
 		}
 		sample := map[string]interface{}{"kind": kindName[s.Kind], "pxyproto": s.PP, "client": s.Remote.String(), "listener": s.Local.String(),
-			"stream_len": len(s.Stream), "segments": len(s.Segs), "first_segment": firstSeg(s), "client_conn_has_CloseWrite": s.CliCW, "client_saw_eof": o.ClEOF, "listener_read_timeout": s.RT.String(), "listener_write_timeout": s.WT.String(), "tls_upstream": s.TLSUp, "segments_after_barrier": s.Barrier, "ended_by_itself": o.Ended, "cwait": s.CWait, "cend": cendCoq[s.CEnd], "last_read_err": []string{"separate EOF", "EOF with data", "", "", "", "", "", "", "", "error with data"}[s.Fin],
+			"stream_len": len(s.Stream), "segments": len(s.Segs), "first_segment": firstSeg(s), "client_conn_has_CloseWrite": s.CliCW, "client_saw_eof": o.ClEOF, "listener_read_timeout": s.RT.String(), "listener_write_timeout": s.WT.String(), "tls_upstream": s.TLSUp, "first_segment_with_upgrade_request": s.WSEarly, "segments_before_101": s.WSBefore, "segments_after_barrier": s.Barrier, "ended_by_itself": o.Ended, "cwait": s.CWait, "cend": cendCoq[s.CEnd], "last_read_err": []string{"separate EOF", "EOF with data", "", "", "", "", "", "", "", "error with data"}[s.Fin],
 			"utrig": []string{"at-connect", "after-bytes " + strconv.Itoa(s.UN), "on-eof"}[s.UTrig], "reply_len": len(s.Reply), "rseg1": s.RSeg1, "uend": uendCoq[s.UEnd],
 			"upstream_got": len(o.Up), "client_got": len(o.Cl), "connected": o.Conn, "runs": results[i].runs}
 		id := run.Add(s.Class, coqScript(s, o), sample)
@@ -1550,7 +1606,7 @@ func main() {
 		bufioCase(run, r, fmt.Sprintf("bufio-ops-size-%d", size), size, total, []int{0, 1, 3}[r.Intn(3)], 2+r.Intn(8))
 	}
 
-	run.Finish(preamble, 40)
+	run.Finish(preamble, 20)
 }
 
 func firstSeg(s *script) int {
